@@ -3,7 +3,9 @@
 Proof half: OPM.Properties.C34 (row times strictly increasing and complete; every cell is the latest recorded
 value at or before the row time, for arbitrary plot logs: unsorted, repeated times, late starts, empty tags).
 Tie half: `csv_generator.generate_csv_string` / `_get_tick_times` (real code, real DTOs) vs the model on the same
-plot logs: an exhaustive small scope plus structured random logs plus a malformed stream.
+plot logs: an exhaustive small scope plus structured random logs plus a malformed stream, with times in 1/1024 s that
+are not aligned between tags; plus a route stream (aggregator handlers / PlotLogRepository write the table, the route
+handler `get_recent_run_csv_json` exports it).
 Oracle: the CSV text parsed back with `csv.reader`, compared with a direct Python sample-and-hold reference.
 """
 from __future__ import annotations
@@ -26,7 +28,7 @@ META = dict(
     level_note="The theorems are about the repaired row loop (fixes/C34-csv-sample-and-hold.diff); on the unrepaired "
                "code the correspondence breaks and the oracle reports the failing plot log. Trusted: Lean kernel "
                "(+ propext/Classical.choice/Quot.sound), the harness, CPython csv writer/reader and list.sort "
-               "stability (differential only). Times are finite floats (the harness feeds multiples of 1/8); NaN "
+               "stability (differential only). Times are finite floats (the harness feeds multiples of 1/1024 s, tags not on a common grid); NaN "
                "times are out of scope. Metadata rows are not part of the property; header names are checked by the "
                "oracle only.",
     technique="Lean 4 proof (stable insertion sort + loop invariant: the stateful pop loop is a pure function of the "
@@ -39,15 +41,24 @@ REQUIRED = ["OPM.C34.row_times_strictly_increasing", "OPM.C34.row_times_complete
 
 # ---------------------------------------------------------------------------------------------------------
 # A case: {"entries": [[[t, id], ...], ...], "kind": "int"|"float"|"str", "clock": bool, "units": [...]}
-# t = time in eighths of a second (float t/8 is exact); id > 0 = value id, id 0 = Python None.
-# If "clock" is set, the first tag is a clock: the value recorded at time t renders as t/8.
+# t = time in 1/scale s ("scale": 1024 for generated cases, 8 for old corpus/replay cases; t/scale is an exact float);
+# id > 0 = value id, id 0 = Python None.  If "clock" is set, the first tag is a clock: its value at time t renders as t/scale.
+
+
+def scale(case) -> int:
+    """Ticks per second of the case's integer times (old cases: 8; current generators: 1024 — still exact floats)."""
+    return int(case.get("scale", 8))
+
+
+def tag_names(case) -> list[str]:
+    return list(case.get("names") or [f"Tag{k}" for k in range(len(case["entries"]))])
 
 
 def value_of(case, k: int, t: int, vid: int):
     if vid == 0:
         return None
     if case.get("clock") and k == 0:
-        return t / 8.0
+        return t / float(scale(case))
     kind = case.get("kind", "int")
     if kind == "float":
         return vid + 0.5
@@ -72,42 +83,64 @@ def _plot_log(case):
     import openpectus.aggregator.routers.dto as Dto
     d = {}
     units = case.get("units") or []
-    for k, vs in enumerate(case["entries"]):
+    sc = float(scale(case))
+    for k, (name, vs) in enumerate(zip(tag_names(case), case["entries"])):
         unit = units[k] if k < len(units) else None
-        d[f"Tag{k}"] = Dto.PlotLogEntry(
-            name=f"Tag{k}", value_unit=unit, value_type=Dto.ProcessValueType.INT,
-            values=[Dto.PlotLogEntryValue(value=value_of(case, k, t, vid), tick_time=t / 8.0) for t, vid in vs])
+        d[name] = Dto.PlotLogEntry(
+            name=name, value_unit=unit, value_type=Dto.ProcessValueType.INT,
+            values=[Dto.PlotLogEntryValue(value=value_of(case, k, t, vid), tick_time=t / sc) for t, vid in vs])
     return Dto.PlotLog(entries=d)
 
 
+def _split_csv(text: str):
+    rows = list(csv.reader(io.StringIO(text)))
+    k = rows.index([])          # the empty row that ends the metadata block
+    return rows[k + 1], rows[k + 2:]
+
+
 def export(case):
-    """Real code: (tick times as returned by _get_tick_times, header row, data rows parsed back from the CSV text)."""
+    """Real code: (tick times as returned by _get_tick_times, header row, data rows parsed back from the CSV text).
+    DTO cases call csv_generator on DTOs built by the harness; route cases were run through the aggregator (see below)."""
+    if "route" in case:
+        r = _ROUTE.get(id(case)) or materialise_route(case)
+        if r.get("error"):
+            raise RuntimeError(r["error"])
+        return r["times"], r["header"], r["rows"]
     from openpectus.aggregator import csv_generator
     times = csv_generator._get_tick_times(_plot_log(case))
     text = csv_generator.generate_csv_string(_plot_log(case), _recent_run()).getvalue()
-    rows = list(csv.reader(io.StringIO(text)))
-    k = rows.index([])          # the empty row that ends the metadata block
-    return times, rows[k + 1], rows[k + 2:]
+    header, rows = _split_csv(text)
+    return times, header, rows
+
+
+def tag_columns(case, header: list[str]) -> list[int | None]:
+    """Column index of every tag, found by NAME in the header (`name` or `name [unit]`); other columns (e.g. a time
+    column) are none of the property's business. None = no column, or more than one, for that tag."""
+    cols: list[int | None] = []
+    for name in tag_names(case):
+        hits = [i for i, h in enumerate(header) if h == name or h.startswith(name + " [")]
+        cols.append(hits[0] if len(hits) == 1 else None)
+    return cols
 
 
 def impl_lines(case) -> list[str]:
     try:
-        times, _header, rows = export(case)
+        times, header, rows = export(case)
     except Exception as e:  # noqa: BLE001
         return [f"err:{type(e).__name__}"]
-    # reverse rendering table per column
+    cols = tag_columns(case, header)
     out_rows = []
     for r in rows:
         cells = []
-        for k, text in enumerate(r):
+        for k, col in enumerate(cols):
+            text = r[col] if col is not None and col < len(r) else "?missing"
             if text == "":
                 cells.append("-")
                 continue
-            ids = {vid for t, vid in case["entries"][k] if render(value_of(case, k, t, vid)) == text} \
-                if k < len(case["entries"]) else set()
+            ids = {vid for t, vid in case["entries"][k] if render(value_of(case, k, t, vid)) == text}
             cells.append(str(min(ids)) if len(ids) == 1 else "?" + text)
         out_rows.append(";".join(cells))
-    ts = [t * 8 for t in times]
+    ts = [t * scale(case) for t in times]
     tstr = "-" if not ts else ",".join(str(int(t)) if float(t).is_integer() else repr(t) for t in ts)
     return [f"T:{tstr}|R:" + "/".join(out_rows)]
 
@@ -115,6 +148,65 @@ def impl_lines(case) -> list[str]:
 def op_line(case, op="csv") -> list[str]:
     es = ["-" if not vs else ",".join(f"{t}:{vid}" for t, vid in vs) for vs in case["entries"]]
     return ["\t".join([op, str(len(es)), *es])]
+
+
+# ---------------------------------------------------------------------------------------------------------
+# route cases: the plot log is written into the database by the real aggregator (TagsUpdatedMsg through the message
+# handlers, and PlotLogRepository.store_tag_values for rows the message path would align), the run is stopped, and the
+# CSV comes from the real route handler `get_recent_run_csv_json`.  The recorded plot log of such a case is what the
+# PlotLogEntryValues table holds (rows in insertion order per tag), read with plain SQL — not through the DTO path.
+#   case["route"] = {"tags": n, "interval": seconds, "batches": [["msg" | "repo", [[tag index, t, value id], ...]], ...]}
+
+_ROUTE: dict[int, dict] = {}
+RUN_ID = "run-1"
+
+
+def materialise_route(case) -> dict:
+    from harness.agg_common import AggHarness
+    import openpectus.aggregator.models as Mdl
+    import openpectus.aggregator.routers.dto as Dto
+    from openpectus.aggregator import csv_generator
+    from openpectus.aggregator.data.repository import PlotLogRepository
+    from openpectus.aggregator.routers import recent_runs
+    rt = case["route"]
+    sc = float(scale(case))
+    names = [f"Tag{k}" for k in range(rt["tags"])]
+    res: dict = {}
+    try:
+        h = AggHarness()
+        h.register()
+        h.uod_info(names, float(rt["interval"]))
+        h.run_started(RUN_ID)
+        for kind, items in rt["batches"]:
+            if kind == "msg":
+                h.tags_updated([(names[k], vid if vid else None, t / sc) for k, t, vid in items], RUN_ID)
+            else:
+                with h.database.create_scope():
+                    PlotLogRepository(h.database.scoped_session()).store_tag_values(
+                        h.engine_id, RUN_ID, [Mdl.TagValue(name=names[k], tick_time=t / sc, value=vid if vid else None,
+                                                           value_unit=None) for k, t, vid in items])
+        stored = h.value_rows()
+        h.run_stopped(RUN_ID)
+        with h.database.create_scope():
+            csv_dto = recent_runs.get_recent_run_csv_json(set(), RUN_ID)
+            model = PlotLogRepository(h.database.scoped_session()).get_plot_log(RUN_ID)
+            times = csv_generator._get_tick_times(Dto.PlotLog.model_validate(model))
+        header, rows = _split_csv(csv_dto.csv_content)
+        res.update(times=times, header=header, rows=rows)
+    except Exception as e:  # noqa: BLE001  (no plot log rows -> 404, ...)
+        stored = []
+        res["error"] = f"{type(e).__name__}: {getattr(e, 'detail', e)}"[:200]
+    # the recorded plot log, tag by tag, in insertion order
+    entries: list[list[list[int]]] = [[] for _ in names]
+    for (_id, _rid, name, tick, value) in stored:
+        if name in names:
+            t = tick * sc
+            entries[names.index(name)].append([int(t) if float(t).is_integer() else t, int(value) if value is not None else 0])
+    case["entries"] = entries
+    case["names"] = names
+    case["kind"] = "int"
+    _ROUTE[id(case)] = res
+    return res
 
 
 # ---------------------------------------------------------------------------------------------------------
@@ -139,16 +231,20 @@ def oracle(case) -> Failure | None:
     try:
         _times, header, rows = export(case)
     except Exception as e:  # noqa: BLE001
-        return Failure(f"export-raises-{type(e).__name__}", case, f"generate_csv_string raised {e!r}")
+        if "route" in case and not any(case["entries"]):
+            return None     # nothing was persisted: the route answers 404, there is no export to judge
+        return Failure(f"export-raises-{type(e).__name__}", case, f"the export raised {e!r}")
     exp = expected_rows(case)
     n = len(case["entries"])
-    if len(header) != n or any(not h.startswith(f"Tag{k}") for k, h in enumerate(header)):
-        return Failure("header-columns-do-not-match-tags", case, f"header {header!r} for {n} tags")
+    sc = scale(case)
+    cols = tag_columns(case, header)
+    if any(c is None for c in cols):
+        return Failure("tag-without-its-own-column", case, f"header {header!r} for tags {tag_names(case)}")
     if len(rows) != len(exp):
         return Failure("row-count-differs-from-distinct-times", case,
                        f"{len(rows)} data rows for {len(exp)} distinct recorded times")
     if case.get("clock") and n:
-        clock = [r[0] if r else "" for r in rows]
+        clock = [r[cols[0]] if cols[0] < len(r) else "" for r in rows]
         vals = []
         for c in clock:
             try:
@@ -160,39 +256,48 @@ def oracle(case) -> Failure | None:
             return Failure("rows-not-in-increasing-time-order", case, f"clock column {clock!r}")
     times = sorted({t for vs in case["entries"] for t, _ in vs})
     for i, (r, e) in enumerate(zip(rows, exp)):
-        if len(r) != n and not (n == 0 and r == []):
-            return Failure("row-width-differs-from-tag-count", case, f"row {i}: {r!r}")
         for k in range(n):
-            if r[k] == e[k]:
+            if cols[k] >= len(r):
+                return Failure("row-without-cell-for-a-tag", case, f"row {i}: {r!r} has no cell in column {cols[k]}")
+            cell = r[cols[k]]
+            if cell == e[k]:
                 continue
             t = times[i]
             if e[k] == "":
                 key = "value-shown-before-its-first-time"
-            elif r[k] == "":
+            elif cell == "":
                 key = "cell-empty-although-value-recorded"
             else:
                 key = "cell-not-the-latest-value-at-row-time"
-            return Failure(key, case, f"row {i} (t={t / 8}) tag {k}: cell {r[k]!r}, latest recorded value at or "
-                                      f"before that time is {e[k]!r}; samples (t*8, id) = {case['entries'][k]}")
+            return Failure(key, case, f"row {i} (t={t / sc}) tag {k}: cell {cell!r}, latest recorded value at or "
+                                      f"before that time is {e[k]!r}; samples (t*{sc}, id) = {case['entries'][k]}")
     return None
 
 
 # ---------------------------------------------------------------------------------------------------------
-# generators
+# generators.  Times are integers in 1/1024 s (exact as floats and as Int on the Lean side).  GRID = 1/8 s; tags are
+# deliberately NOT aligned to a common grid: differences of 1/1024 s ... 0.11 s between tags are the normal case for
+# real tick times (time.time() floats with a 0.1 s tick), so tolerances / rounding in the export show up.
+
+SCALE = 1024
+GRID = 128
+JITTER = [0, 0, 1, -1, 13, 51, -51, 102, 103, 110]        # ticks: 1 ms, 13 ms, 50 ms, just below / above 0.1 s
+SMALL_TIMES = (1024, 1025, 1100)                          # 1 s, +1/1024 s, +0.074 s
+
 
 def gen_exhaustive(ctx: Check) -> list[dict]:
-    """All logs with 1..2 tags, each tag any sequence of <= L samples over times {1,2,3} (ids distinct per tag)."""
+    """All logs with 1..2 tags, each tag any sequence of <= L samples over three times less than 0.1 s apart."""
     L = ctx.n(3, 4)
     seqs = [[]]
     for ln in range(1, L + 1):
-        seqs += [list(t) for t in itertools.product((1, 2, 3), repeat=ln)]
+        seqs += [list(t) for t in itertools.product(SMALL_TIMES, repeat=ln)]
     cases = []
     for a in seqs:
-        cases.append({"entries": [[[t, i + 1] for i, t in enumerate(a)]], "kind": "int"})
+        cases.append({"entries": [[[t, i + 1] for i, t in enumerate(a)]], "kind": "int", "scale": SCALE})
     for a in seqs:
         for b in seqs:
             cases.append({"entries": [[[t, i + 1] for i, t in enumerate(a)],
-                                      [[t, i + 11] for i, t in enumerate(b)]], "kind": "int"})
+                                      [[t, i + 11] for i, t in enumerate(b)]], "kind": "int", "scale": SCALE})
     return cases
 
 
@@ -201,12 +306,16 @@ def gen_random(ctx: Check, n: int) -> list[dict]:
     cases = []
     for _ in range(n):
         ntags = rng.choice([1, 2, 2, 3, 3, 4])
-        style = rng.choice(["aligned", "interleaved", "late", "repeats", "unsorted", "mixed", "mixed"])
+        style = rng.choice(["aligned", "interleaved", "late", "repeats", "unsorted", "mixed", "mixed", "jitter", "jitter"])
         base = sorted(rng.sample(range(0, 40), rng.randrange(1, 9)))
         entries = []
         for k in range(ntags):
+            off = 0
             if style == "aligned":
                 ts = list(base)
+            elif style == "jitter":              # same grid, every tag shifted by a constant fraction of a tick period
+                ts = [t for t in base if t >= base[min(len(base) - 1, rng.randrange(0, 3))]] if k else list(base)
+                off = rng.choice(JITTER) if k else 0
             elif style == "interleaved":
                 ts = sorted(rng.sample(range(0, 40), rng.randrange(0, 7)))
             elif style == "late":
@@ -220,8 +329,12 @@ def gen_random(ctx: Check, n: int) -> list[dict]:
                 ts = [rng.randrange(0, 16) for _ in range(rng.randrange(0, 9))]
                 if rng.random() < 0.6:
                     ts.sort()
-            entries.append([[t, i + 1 + 20 * k] for i, t in enumerate(ts)])
-        case = {"entries": entries, "kind": rng.choice(["int", "int", "float", "str"]), "style": style,
+            ticks = [t * GRID + off + (rng.choice(JITTER) if style in ("mixed", "interleaved", "late") and rng.random() < 0.5
+                                       else 0) for t in ts]
+            if style not in ("unsorted", "mixed"):
+                ticks.sort()
+            entries.append([[t, i + 1 + 20 * k] for i, t in enumerate(ticks)])
+        case = {"entries": entries, "kind": rng.choice(["int", "int", "float", "str"]), "style": style, "scale": SCALE,
                 "units": [rng.choice([None, "L", "%"]) for _ in range(ntags)]}
         if rng.random() < 0.3:
             times = sorted({t for vs in entries for t, _ in vs})
@@ -242,10 +355,43 @@ def gen_malformed(ctx: Check, n: int) -> list[dict]:
         entries = []
         for k in range(ntags):
             m = rng.choice([0, 0, 1, 2, 5, 12])
-            ts = [rng.choice([-8, -1, 0, 1, 2, 2, 3, 10 ** 9, 8 * 10 ** 6 + 1]) for _ in range(m)]
+            ts = [rng.choice([-1024, -1, 0, 1, 2, 2, 3, 101, 103, 10 ** 12, 1024 * 10 ** 6 + 1]) for _ in range(m)]
             # ids: 0 = None value, otherwise distinct
             entries.append([[t, 0 if rng.random() < 0.25 else i + 1 + 20 * k] for i, t in enumerate(ts)])
-        cases.append({"entries": entries, "kind": rng.choice(["int", "str", "float"]), "style": "malformed"})
+        cases.append({"entries": entries, "kind": rng.choice(["int", "str", "float"]), "style": "malformed", "scale": SCALE})
+    return cases
+
+
+def gen_route(ctx: Check, n: int) -> list[dict]:
+    """Plot logs written by the aggregator itself and exported through the route handler (materialised here: the
+    recorded plot log of the case is read back from the table)."""
+    rng = ctx.rng
+    cases = []
+    for _ in range(n):
+        ntags = rng.randrange(1, 4)
+        nid = [0] * ntags
+
+        def item(k, t):
+            nid[k] += 1
+            return [k, t, 0 if rng.random() < 0.05 else nid[k] + 100 * k]
+
+        t = 1024 * rng.randrange(1, 4)
+        batches = []
+        for _ in range(rng.randrange(1, 9)):
+            if rng.random() < 0.55:       # engine message: some tags changed at this tick
+                t += rng.choice([GRID, GRID, 102, 103, 2 * GRID, 1100, 13])
+                ks = rng.sample(range(ntags), rng.randrange(1, ntags + 1))
+                batches.append(["msg", [item(k, t + (rng.choice(JITTER) if rng.random() < 0.3 else 0)) for k in ks]])
+            else:                          # rows as the repository stores them, with times the message path would align
+                items = []
+                for _ in range(rng.randrange(1, 5)):
+                    k = rng.randrange(ntags)
+                    items.append(item(k, t + rng.choice([-GRID, 0, 0, 1, 51, GRID, 3 * GRID]) + rng.choice(JITTER)))
+                batches.append(["repo", items])
+        case = {"route": {"tags": ntags, "interval": rng.choice([0.0, 0.0, 0.1, 0.5, 1.0]), "batches": batches},
+                "scale": SCALE, "style": "route"}
+        materialise_route(case)
+        cases.append(case)
     return cases
 
 
@@ -257,7 +403,14 @@ def is_nontrivial(case, _out=None) -> bool:
     late = any(min(t for t, _ in vs) > first for vs in es)
     rep = any(len({t for t, _ in vs}) < len(vs) for vs in es)
     uns = any([t for t, _ in vs] != sorted(t for t, _ in vs) for vs in es)
-    return late or rep or uns
+    return late or rep or uns or _near(case)
+
+
+def _near(case) -> bool:
+    """Two different tags have times that differ by less than 0.1 s (and are not equal)."""
+    lim = 0.1 * scale(case)
+    ts = sorted({(t, k) for k, vs in enumerate(case["entries"]) for t, _ in vs})
+    return any(0 < b[0] - a[0] < lim and a[1] != b[1] for a, b in zip(ts, ts[1:]))
 
 
 def _count(ctx: Check, case) -> None:
@@ -279,6 +432,11 @@ def _count(ctx: Check, case) -> None:
         ctx.count("has-None-value")
     if case.get("clock"):
         ctx.count("has-clock-tag")
+    if _near(case):
+        ctx.count("tags-less-than-0.1s-apart")
+    if "route" in case:
+        ctx.count("route")
+        ctx.count("route-404" if (_ROUTE.get(id(case)) or {}).get("error") else "route-exported")
 
 
 def run(ctx: Check) -> int:
@@ -287,13 +445,19 @@ def run(ctx: Check) -> int:
     small = gen_exhaustive(ctx)
     rnd = gen_random(ctx, ctx.n(1000, 30000))
     bad = gen_malformed(ctx, ctx.n(200, 5000))
-    ctx.rule = ("plot logs as lists of (time in 1/8 s, value id) per tag, fed to the real DTOs. small: ALL logs with 1-2 "
-                "tags, <=3/<=4 samples per tag over times {1,2,3} in every order (repeats, unsorted, late). random: 1-4 "
-                "tags (+ optional clock tag), styles aligned / interleaved / late / repeats / unsorted / mixed, values "
-                "int/float/str. malformed: no tags, empty tags, None values, negative and huge times, 30 values at one "
-                "time. Non-trivial = some tag starts after the first row, repeats a time or is unsorted.")
+    route = gen_route(ctx, ctx.n(80, 2000))
+    ctx.rule = ("plot logs as lists of (time in 1/1024 s, value id) per tag. DTO streams feed the real DTOs to "
+                "csv_generator. small: ALL logs with 1-2 tags, <=3/<=4 samples per tag over three times less than 0.1 s "
+                "apart (1 s, +1/1024 s, +0.074 s) in every order (repeats, unsorted, late). random: 1-4 tags (+ optional "
+                "clock tag), styles aligned / jitter (tags shifted by 1 ms .. 0.11 s against each other) / interleaved / "
+                "late / repeats / unsorted / mixed, values int/float/str. malformed: no tags, empty tags, None values, "
+                "negative and huge times, 30 values at one time. route: the plot log is written by the aggregator "
+                "(TagsUpdatedMsg through the handlers + PlotLogRepository.store_tag_values), the run is stopped and the CSV "
+                "comes from the route handler get_recent_run_csv_json; the recorded log is read back from the table with "
+                "SQL. Non-trivial = some tag starts after the first row, repeats a time, is unsorted, or two tags have "
+                "times less than 0.1 s apart.")
     all_cases = []
-    for name, cases in (("corpus+small", corpus + small), ("random", rnd), ("malformed", bad)):
+    for name, cases in (("corpus+small", corpus + small), ("random", rnd), ("malformed", bad), ("route", route)):
         _out, mout = ctx.correspond(name, "CsvExport", cases, op_line, impl_lines, nontrivial=is_nontrivial)
         if name == "random" and mout:
             ctx.selftest(name, "CsvExport", cases, lambda c: op_line(c, "csvold"), mout)
@@ -302,26 +466,36 @@ def run(ctx: Check) -> int:
         _count(ctx, c)
     ctx.monitor(all_cases, oracle)
     ctx.exhaustive = True
-    ctx.extra["exhaustive_scope"] = (f"all plot logs with 1-2 tags, <= {ctx.n(3, 4)} samples per tag, times in {{1,2,3}} "
-                                     f"({len(small)} logs); the other streams are sampled")
-    ctx.assumptions = ["tick times are finite floats; the harness uses multiples of 1/8 so float order = integer order",
+    ctx.extra["exhaustive_scope"] = (f"all plot logs with 1-2 tags, <= {ctx.n(3, 4)} samples per tag, times in "
+                                     f"{{1 s, 1 s + 1/1024 s, 1 s + 76/1024 s}} ({len(small)} logs); the other streams are "
+                                     f"sampled")
+    ctx.assumptions = ["tick times are finite floats; the harness uses multiples of 1/1024 s so float order = integer order "
+                       "(not aligned to a common grid across tags)",
                        "list.sort is stable and csv.writer/reader round-trip the generated cell texts (CPython; "
                        "validated differentially)",
-                       "value id 0 stands for a recorded value None, which csv renders as the empty cell"]
+                       "value id 0 stands for a recorded value None, which csv renders as the empty cell",
+                       "tag columns are identified by name in the header (`name` or `name [unit]`); further columns are "
+                       "ignored",
+                       "route stream: the recorded plot log is the content of PlotLogEntryValues in insertion order"]
     return ctx.finish(search=lambda c: c.monitor(gen_random(c, 2000) + gen_exhaustive(c), oracle))
 
 
 def replay(obj) -> int:
     case = obj.get("case")
-    if not isinstance(case, dict) or "entries" not in case:
+    if not isinstance(case, dict) or ("entries" not in case and "route" not in case):
         print(json.dumps(obj, indent=1))
         return 0
+    if "route" in case:
+        print("route case:", case["route"])
+        materialise_route(case)
     times, header, rows = export(case)
-    print("samples (t*8, id) per tag:", case["entries"])
+    print(f"samples (t*{scale(case)}, id) per tag:", case["entries"])
     print("tick times:", times)
     print("header:", header)
+    cols = tag_columns(case, header)
     for r, e in zip(rows, expected_rows(case)):
-        print("row", r, " expected", e, "" if r == e else "   <-- differs")
+        got = [r[c] if c is not None and c < len(r) else "?" for c in cols]
+        print("row", r, " tag cells", got, " expected", e, "" if got == e else "   <-- differs")
     print("model:", drive("CsvExport", [op_line(case)])[0])
     print("impl :", impl_lines(case))
     f = oracle(case)
